@@ -150,6 +150,100 @@ func confirm(sc *schedsc.Scenario, v *violation) (bool, []string, string) {
 	return true, trace, ""
 }
 
+// canonical renders what an execution means independently of the order in
+// which concurrent events were logged.
+func canonical(r *schedsc.Run, ex *vs.Exec) string {
+	var ev []string
+	for _, e := range ex.Log {
+		if e.Obj == "emitter" {
+			continue
+		}
+		ev = append(ev, e.String())
+	}
+	sort.Strings(ev)
+	leaked := 0
+	for _, t := range ex.Threads {
+		if !t.Done {
+			leaked++
+		}
+	}
+	var fs []string
+	for _, f := range schedsc.Check(r, ex) {
+		fs = append(fs, f.Prop)
+	}
+	sort.Strings(fs)
+	return fmt.Sprintf("%s|wait=%v|%s|leaked=%d|%v", strings.Join(ev, ";"), r.WaitErr, ex.Term, leaked, fs)
+}
+
+// xcheck cross-checks the sleep-set reduction against plain DFS: on every
+// scenario small enough for both, the sets of canonical outcomes must be equal.
+func xcheck() {
+	var scs []schedsc.Scenario
+	outs := []string{schedsc.OK, schedsc.Err, schedsc.Goexit}
+	scs = append(scs, schedsc.Core(1, []int{1, 2}, []bool{false, true}, outs, -1)...)
+	scs = append(scs, schedsc.Core(2, []int{1}, []bool{false, true}, outs, -1)...)
+	scs = append(scs, schedsc.Core(2, []int{2}, []bool{false}, []string{schedsc.OK, schedsc.Err}, 0)...)
+	x, _ := schedsc.Family("C09", "quick")
+	for _, s := range x {
+		if len(s.Jobs) <= 1 || (len(s.Jobs) == 2 && s.N == 1 && !s.Canceller) {
+			scs = append(scs, s)
+		}
+	}
+	var execs [2]int64
+	skipped, compared := 0, 0
+	for i := range scs {
+		sc := &scs[i]
+		var sets [2]map[string]bool
+		tooBig := false
+		for k, strat := range []vs.Strategy{vs.SleepSets, vs.Plain} {
+			if tooBig {
+				break
+			}
+			sets[k] = map[string]bool{}
+			var cur *schedsc.Run
+			body := func() { b, r := sc.Body(); cur = r; b() }
+			max := int64(12000)
+			if strat == vs.SleepSets {
+				max = 600
+			}
+			st, terr := vs.Explore(vs.Options{Strategy: strat, PreemptBound: -1, Cfg: cfgFor(sc), MaxExecs: max}, body, func(ex *vs.Exec) bool {
+				sets[k][canonical(cur, ex)] = true
+				return false
+			})
+			if terr != "" {
+				mc.ToolError("xcheck %s: %s", sc.String(), terr)
+			}
+			if !st.Exhaustive {
+				tooBig = true
+				break
+			}
+			execs[k] += st.Execs
+		}
+		if tooBig {
+			skipped++
+			continue
+		}
+		compared++
+		if os.Getenv("XCHECK_VERBOSE") != "" {
+			fmt.Fprintf(os.Stderr, "xcheck %s: plain=%d sleep=%d\n", sc.String(), execs[0], execs[1])
+		}
+		for o := range sets[0] {
+			if !sets[1][o] {
+				mc.ToolError("xcheck %s: outcome found by plain DFS but not under sleep sets: %s", sc.String(), o)
+			}
+		}
+		for o := range sets[1] {
+			if !sets[0][o] {
+				mc.ToolError("xcheck %s: outcome found under sleep sets but not by plain DFS: %s", sc.String(), o)
+			}
+		}
+	}
+	fmt.Printf("xcheck: %d scenarios compared (%d too large for plain DFS skipped), sleep sets %d executions, plain DFS %d executions, identical outcome sets\n", compared, skipped, execs[0], execs[1])
+	if compared < 20 {
+		mc.ToolError("xcheck compared only %d scenarios", compared)
+	}
+}
+
 func scenarioKey(sc *schedsc.Scenario) string { return "sched:" + sc.String() }
 
 func replayMain(path string) {
@@ -206,7 +300,12 @@ func main() {
 	list := flag.Bool("list", false, "list scenarios and exit")
 	allProps := flag.Bool("all-monitors", true, "report violations of any monitored property (attributed to its own id)")
 	noEvidence := flag.Bool("no-evidence", false, "do not write the evidence file")
+	xc := flag.Bool("xcheck", false, "cross-check sleep sets against plain DFS on small scenarios")
 	flag.Parse()
+	if *xc {
+		xcheck()
+		return
+	}
 
 	if *worker {
 		mc.ServeWorker(func(b []byte) any {
@@ -332,26 +431,12 @@ func main() {
 				Decisions: v.Decisions, Trace: trace, Visible: v.Visible,
 				Note: "replay: /verif/check " + v.Prop + " --replay <this file>"})
 		}
-		if *prop == "C03" && r.Stats.Exhaustive {
-			g := 0
-			for _, j := range sc.Jobs {
-				if j.Out == schedsc.Goexit {
-					g++
-				}
+		if sc.Census != "" && r.Stats.Exhaustive {
+			key := sc.Census
+			for len(census[key]) <= len(sc.Jobs) {
+				census[key] = append(census[key], -1)
 			}
-			plain := true
-			for _, j := range sc.Jobs {
-				if (j.Out != schedsc.OK && j.Out != schedsc.Goexit) || len(j.Deps) > 0 {
-					plain = false
-				}
-			}
-			if plain && sc.COE && sc.N > 0 && !sc.Emitter {
-				key := fmt.Sprintf("N=%d goexits=%d", sc.N, g)
-				for len(census[key]) <= len(sc.Jobs) {
-					census[key] = append(census[key], -1)
-				}
-				census[key][len(sc.Jobs)] = r.MaxSpawned
-			}
+			census[key][len(sc.Jobs)] = r.MaxSpawned
 		}
 	}
 	censusOut := map[string]any{}
@@ -362,6 +447,9 @@ func main() {
 			var n int
 			fmt.Sscanf(key, "N=%d", &n)
 			prev := -1
+			if strings.Contains(key, "fail+") {
+				n = 1
+			}
 			for k := n + 1; k < len(arr); k++ {
 				if arr[k] < 0 {
 					continue
